@@ -460,7 +460,7 @@ type dev struct {
 func menu() []dev {
 	var m []dev
 	add := func(slot, name string, f func(r, a *sbom.Node)) { m = append(m, dev{Name: slot + "=" + name, Slot: slot, Do: f}) }
-	txt := []string{"x", "Ünï cödé ✓ 日本", "a b"}
+	txt := []string{"x", "Ünï cödé ✓ 日本", "a b", "q\"uo\\te <&> {}[]:,", "  lead", "trail  ", "multi\nline", "protobom-auto--x", "x (y)", strings.Repeat("long", 300)}
 	for wi, who := range []string{"root", "child"} {
 		wi := wi
 		pick := func(r, a *sbom.Node) *sbom.Node {
